@@ -144,11 +144,12 @@ def _worker_extra(args):
 
 
 def _worker_conformance(args):
-    seed, quick = args
+    seed, quick = args[0], args[1]
+    part, parts = (args[2], args[3]) if len(args) > 2 else (0, 1)
     t0 = time.time()
     try:
         from . import conformance
-        cases, fails = conformance.run(get_interp(), seed, quick=quick)
+        cases, fails = conformance.run(get_interp(), seed, quick=quick, part=part, parts=parts)
         return {'kind': 'conformance', 'cases': cases, 'failures': fails[:20], 'seconds': round(time.time() - t0, 3)}
     except BaseException:
         return {'kind': 'conformance', 'crash': traceback.format_exc(), 'seconds': round(time.time() - t0, 3)}
@@ -279,7 +280,11 @@ def run_check(prop, tier='quick', seed=0, jobs=None, only=None, write_baseline=F
             tasks.append(('extra', (f'props.{prop}', fname, tier, seed)))
             extras.append(fname)
     if not only:
-        tasks.append(('conformance', (seed, tier == 'quick')))
+        if tier == 'quick':
+            tasks.append(('conformance', (seed, True)))
+        else:
+            # the larger exhaustive domain of the thorough tier is split so that it does not dominate the wall time
+            tasks[0:0] = [('conformance', (seed, False, k, 14)) for k in range(14)]
         for sel in selected[:1] + selected[len(selected) // 2:len(selected) // 2 + 1] + selected[-1:]:
             tasks.append(('canary', sel))
     if not tasks:
@@ -368,7 +373,7 @@ def aggregate(prop, tier, seed, results, t_start, write_baseline, extra_mod, qui
             checker_errors.append(f"{r.get('kind')} {r.get('qualname', r.get('id', ''))}: {r['crash'].splitlines()[-1]}")
             continue
         if r['kind'] == 'conformance':
-            conformance_cases = r['cases']
+            conformance_cases += r['cases']
             if r['failures']:
                 checker_errors.append('external-model conformance failed: ' + '; '.join(r['failures'][:3]))
             continue
